@@ -37,7 +37,7 @@ MANIFEST = dict(
           "code); oracle: nothing outside the data directory is created, modified or deleted (sentinel tree with known content at "
           "three directory levels above the data dir, hashed before/after each request) and no response contains sentinel content."),
     note=("Quick tier replays a seeded sample of the length-3 names plus every model-predicted escape and the depth-amplified "
-          "targets; thorough replays all. Depth amplification (k x '../') and sentinel base names are chosen by the harness, not by "
+          "targets; thorough replays all names of <= 3 classes in 3 encodings (4-class names are model-checked only). Depth amplification (k x '../') and sentinel base names are chosen by the harness, not by "
           "TLC. org id is not client-controlled in this build (server_utils.GetMyIds returns the single tenant 0) and is not "
           "exercised; the static file handler and pprof routes are fasthttp's own code and out of scope; Windows separators not "
           "modelled; symlinks inside the data dir not considered. Prediction mismatches between model and code that do not "
@@ -354,6 +354,7 @@ def requests_for(api, name, tag, srv, idx):
     raise vlib.Infra("no request builder for api %s" % api)
 
 
+FIXED_PATH_APIS = ("folder-create", "folder-get", "usq-save", "usq-delete", "metric-name")
 BATCH_APIS = {"metric-name": ["mrotate"], "metric-tagkey": ["mrotate"]}    # effects appear at the (once per life) shutdown flush
 
 
@@ -452,7 +453,8 @@ def run(chk):
     if "Confined" not in r2.violated:
         raise vlib.Infra("model sensitivity lost: the as-coded model no longer violates Confined")
     chk.add_tlc("MC_Paths_ascode", r2, "code as it is (no guard): Confined is expected to fail - the escaping pairs are replay candidates, not verdicts")
-    beh, rg = vlib.tlc_generate("Gen_Paths", "Gen_Paths.cfg" if quick else "Gen_Paths_deep.cfg", timeout=1500)
+    # (names of 4 classes are model-checked in the thorough tier; the replay uses the <= 3 class export plus depth amplification)
+    beh, rg = vlib.tlc_generate("Gen_Paths", "Gen_Paths.cfg", timeout=1500)
     chk.add_tlc("Gen_Paths", rg, "export of every (api, name class sequence) with the predicted outcome")
     if not beh:
         raise vlib.Infra("no cases generated")
@@ -474,6 +476,9 @@ def run(chk):
             rest = rnd.sample(rest, min(len(rest), 60))
         elif api in ("bulk-index", "doc-index"):
             rest = rnd.sample(rest, min(len(rest), 1500))      # each case costs a flush + rotate
+        elif api in FIXED_PATH_APIS:
+            # the path does not depend on the name; folder_structure.json / usq.json are rewritten on every request (quadratic)
+            rest = rnd.sample(rest, min(len(rest), 300))
         cases = []
         idx = 0
 
@@ -491,9 +496,11 @@ def run(chk):
         amp = [b for b in lst if "up" in b["name"]]
         if quick:
             amp = esc + rnd.sample([b for b in amp if b not in esc], min(40, len([b for b in amp if b not in esc])))
+        if api in FIXED_PATH_APIS and not quick:
+            amp = rnd.sample(amp, min(len(amp), 60))
         for b in amp:
             for ups in (base + 1, base + 2, base + 3):
-                targets = ["s", "al"] if "plain" in b["name"] else [None]
+                targets = ["s", "al", "nw"] if "plain" in b["name"] else [None]     # two existing sentinel stems and a new name
                 for tg in targets:
                     for tag in (["raw", "urlenc"] if (not quick or b in esc) else ["raw"]):
                         add(b, tag, ups, tg)
@@ -502,9 +509,13 @@ def run(chk):
             if b["name"][0] == "up" and "plain" in b["name"]:
                 for ups in (base + 1, base + 2):
                     add(b, "raw", ups, "s", prefix=True)
-        work.append((api, cases))
+        # one server life handles at most `chunk` cases: every bulk/doc case creates an index, and flush/rotate cost grows with
+        # the number of indexes a process has seen; shorter lives also spread the work over the workers
+        chunk = 250 if api in ("bulk-index", "doc-index") else 1200
+        for i in range(0, len(cases), chunk):
+            work.append((api, cases[i:i + chunk]))
         total_cases += len(cases)
-    vlib.log("[C19] %d apis, %d cases" % (len(work), total_cases))
+    vlib.log("[C19] %d apis, %d server lives, %d cases" % (len(by_api), len(work), total_cases))
 
     out = vlib.pmap(lambda w: run_api(binary, w[0], w[1], chk.seed), work, workers=WORKERS)
 
@@ -548,7 +559,8 @@ def run(chk):
         chk.replayed(len(results))
     # one violation per (api, effect): the shortest class sequence is the signature, the others are listed
     grouped = {}
-    for key in sorted(vio, key=lambda k: (len(k), k)):
+    pref = {"up-sep-plain": 0, "up-sep": 1, "up": 2}
+    for key in sorted(vio, key=lambda k: (pref.get(k.split(":", 3)[-1], 9), len(k), k)):
         api_eff = ":".join(key.split(":")[:3])
         g = grouped.setdefault(api_eff, {"key": key, "v": vio[key], "others": [], "n": 0})
         g["n"] += vio[key]["n"]
